@@ -179,7 +179,7 @@ def s_siblings(cx, rule, only=None):
                 s = s.replace(a, b)
             s = re.sub(r'\b_\d+@in', 'tmp@in', s)
             # identity transfers of (possibly unused) loop-local bindings carry no information
-            s = '\n'.join(l for l in s.split('\n') if not re.match(r"^loop (\w+)' = \1@in$", l))
+            s = '\n'.join(l for l in s.split('\n') if not re.match(r"^loop (\w+)' = \1@in$", l) and not re.match(r"^loop (\w+)' = (phi\()?each\(Range", l))
             # parameter names are irrelevant
             for i in range(1, fn.arg_count + 1):
                 s = re.sub(r'\$%s\b' % re.escape(fn.local_name(i)), '$%d' % i, s)
